@@ -43,7 +43,19 @@ THEOREMS = ["AurelVerif.C17." + t for t in (
     "K_is_metric_rate_Szekeres_except_zz", "K_is_metric_rate_Szekeres_partial", "Szekeres_dtZ_is_rate",
     "K_is_metric_rate_ICPertFLRW_EdS", "ICPertFLRW_background",
     "friedmann_EdS", "continuity_EdS", "friedmann_LCDM", "helper_derivatives")]
-LEAN_FILES = ["AurelVerif/Props/C17.lean", "AurelVerif/Lemmas/Solutions.lean", "AurelVerif/Gen/Solutions.lean"]
+# part 2: Einstein's equations (Props/C17Einstein.lean; proofs in Lemmas/C17Ein*.lean, algebraic curvature of each
+# metric family in Lemmas/C17Jet*.lean written by the developer tool tools/py2lean/c17_jetgen.py, Spec/Jet4.lean,
+# Spec/MetricJet.lean).  Heavy (~8 min of CPU from scratch) but compiled once by `lake build` and then cached.
+MODULE_EINSTEIN = "AurelVerif.Props.C17Einstein"
+THEOREMS_EINSTEIN = ["AurelVerif.C17." + t for t in (
+    "einstein_EdS", "einstein_LCDM", "einstein_Conformally_flat", "einstein_Schwarzschild", "Schwarzschild_domain_iff",
+    "einstein_Harvey_Tsoubelis", "einstein_Collins_Stewart", "einstein_Rosquist_Jantzen",
+    "einstein_Non_diagonal_exact_coefficient", "Non_diagonal_domain_iff", "einstein_Non_diagonal_as_written_is_false")]
+LEAN_FILES = ["AurelVerif/Props/C17.lean", "AurelVerif/Lemmas/Solutions.lean", "AurelVerif/Gen/Solutions.lean",
+              "AurelVerif/Props/C17Einstein.lean", "AurelVerif/Spec/Jet4.lean", "AurelVerif/Spec/MetricJet.lean",
+              "AurelVerif/Lemmas/C17JetTac.lean", "AurelVerif/Lemmas/C17DerivTac.lean", "AurelVerif/Lemmas/C17JetCalc.lean"] + \
+             ["AurelVerif/Lemmas/C17Jet%s.lean" % f for f in ("FLRW", "ConfFlat", "Schw", "HT", "CS", "RJ", "ND")] + \
+             ["AurelVerif/Lemmas/C17Ein%s.lean" % f for f in ("FLRW", "ConfFlat", "Schw", "HT", "CS", "RJ", "ND")]
 COSMO = ("EdS", "LCDM", "Szekeres", "ICPertFLRW")
 
 
@@ -680,9 +692,10 @@ def run(ctx):
     except Exception as ex:  # noqa
         ctx.obligation("py2lean:solutions", False, "translation failed: %r" % ex, kind="translation")
     prove(ctx)
+    ctx.prove(MODULE_EINSTEIN, THEOREMS_EINSTEIN, timeout=3000)
     ctx.forbidden_scan(LEAN_FILES)
     if ctx.tier == "thorough" and not ctx.broken():
-        ctx.leanchecker([MODULE])
+        ctx.leanchecker([MODULE, MODULE_EINSTEIN])
     if info is not None:
         try:
             bad = validate_translation(ctx, info, ctx.budget(4, 40))
